@@ -2,6 +2,7 @@ package main
 
 import (
 	"fmt"
+	"go/types"
 	"strings"
 
 	"golang.org/x/tools/go/ssa"
@@ -514,4 +515,51 @@ func splitBin(in string) (a, op, b string, ok bool) {
 		}
 	}
 	return
+}
+
+// VERSIONS-AS-DECLARED (C18-R3): the gates of NewNativeIterator refuse a
+// snapshot by the formatVersion / compatVersion its writer declared. Between the
+// decoder and the gates nothing rewrites those two fields: their only writers
+// are the protobuf decoder (snapshot.(*Snapshot).Unmarshal, from the decoded
+// varint) and the snapshot this instance creates itself (SendOnce, from the
+// package constants). A "normalisation" of loaded snapshots (clamping
+// compatVersion to formatVersion, defaulting a missing one) lets a snapshot
+// that demands a newer reader pass the gate as an older one.
+func ruleVersionFieldsAsDeclared(c *Check, rule string) {
+	n, bad := 0, 0
+	for _, field := range []string{"FormatVersion", "CompatVersion"} {
+		for fnName, ins := range attributeToOwners(c.P, fieldWriters(c.P, "Snapshot", field)) {
+			for _, in := range ins {
+				st, ok := in.(*ssa.Store)
+				if !ok {
+					continue
+				}
+				fa, _ := st.Addr.(*ssa.FieldAddr)
+				if fa == nil {
+					continue
+				}
+				t := fa.X.Type()
+				if pt, ok := t.Underlying().(*types.Pointer); ok {
+					t = pt.Elem()
+				}
+				nt, _ := t.(*types.Named)
+				if nt == nil || nt.Obj().Pkg() == nil || !strings.HasSuffix(nt.Obj().Pkg().Path(), "lightningstream/snapshot") {
+					continue // the generated reference message of gogosnapshot
+				}
+				switch {
+				case fnName == "snapshot.(*Snapshot).Unmarshal" || strings.HasPrefix(fnName, "snapshot.(*Snapshot).Unmarshal$"):
+					n++ // the decoded value (what the decoder stores per tag is the reader table of C07-R1)
+				case fnName == fnSendOnce || strings.HasPrefix(fnName, fnSendOnce+"$") || fnName == "syncer.NewSnapshot" || fnName == "syncer.(*Syncer).newSnapshot":
+					n++ // the snapshot this instance writes (constants checked by the gate table)
+				default:
+					bad++
+					c.Bad(rule, fnName+"/version-rewritten:"+field, "the "+field+" of a snapshot is rewritten outside the decoder and the snapshot writer: the version gates then judge something other than what the writer declared (a snapshot requiring a newer reader can pass as an older one)", c.P.InstrPos(in), nil)
+				}
+			}
+		}
+	}
+	if bad == 0 {
+		c.Ok(rule, "snapshot.Snapshot/versions-as-declared", fmt.Sprintf("%d writers of Snapshot.FormatVersion/CompatVersion: the decoder (decoded varint) and the snapshot writer only", n), "")
+	}
+	c.Floor(rule, n, 4, "writers of the snapshot version fields")
 }
